@@ -2,11 +2,16 @@
 libgraphqlparser JSON AST shape.  Exploration only."""
 import json
 import re
+import sys
 
 
 class GQLSyntaxError(Exception):
     pass
 
+
+# Nesting bound shared by selection sets, list/object values and list types.
+# Must stay identical to kMaxDepth in shim/gqlshim.cpp.
+MAX_DEPTH = 400
 
 _PUNCT = {"!", "$", "(", ")", ":", "=", "@", "[", "]", "{", "|", "}", "&"}
 _NAME_RE = re.compile(rb"[_A-Za-z][_0-9A-Za-z]*")
@@ -185,6 +190,7 @@ class Parser:
         self.toks = lex(src)
         self.p = 0
         self.last = None
+        self.depth = 0
 
     # helpers
     def peek(self, k=0):
@@ -201,6 +207,16 @@ class Parser:
         raise GQLSyntaxError(
             f"{t.sl}.{t.sc}-{t.ec}: syntax error, unexpected "
             f"{t.kind if t.kind != 'NAME' else 'IDENTIFIER'}, expecting {what}")
+
+    def enter(self, t):
+        # t: the "{" / "[" token opening the nesting level being entered
+        if self.depth >= MAX_DEPTH:
+            raise GQLSyntaxError(
+                f"{t.sl}.{t.sc}: syntax error, memory exhausted")
+        self.depth += 1
+
+    def leave(self):
+        self.depth -= 1
 
     def expect(self, kind):
         if self.peek().kind != kind:
@@ -292,8 +308,10 @@ class Parser:
         start = self.peek()
         if start.kind == "[":
             self.adv()
+            self.enter(start)
             inner = self.type_()
             self.expect("]")
+            self.leave()
             t = self.node("ListType", start, type=inner)
         else:
             n = self.name()
@@ -305,12 +323,14 @@ class Parser:
 
     def selection_set(self):
         start = self.expect("{")
+        self.enter(start)
         sels = []
         while self.peek().kind != "}":
             sels.append(self.selection())
         if not sels:
             self.err("selection")
         self.adv()
+        self.leave()
         return self.node("SelectionSet", start, selections=sels)
 
     def selection(self):
@@ -411,13 +431,16 @@ class Parser:
             return self.node("EnumValue", t, value=t.value)
         if t.kind == "[":
             self.adv()
+            self.enter(t)
             vals = []
             while self.peek().kind != "]":
                 vals.append(self.value(const))
             self.adv()
+            self.leave()
             return self.node("ListValue", t, values=vals)
         if t.kind == "{":
             self.adv()
+            self.enter(t)
             fields = []
             while self.peek().kind != "}":
                 fs = self.peek()
@@ -426,6 +449,7 @@ class Parser:
                 v = self.value(const)
                 fields.append(self.node("ObjectField", fs, name=n, value=v))
             self.adv()
+            self.leave()
             return self.node("ObjectValue", t, fields=fields)
         self.err("value")
 
@@ -471,4 +495,13 @@ def parse_to_json(src) -> bytes:
     nul = src.find(b"\x00")
     if nul >= 0:
         src = src[:nul]
-    return json.dumps(Parser(src).document(), ensure_ascii=False).encode("utf-8", "surrogatepass")
+    # The recursive descent uses <= 2 Python frames per nesting level and the
+    # nesting is bounded by MAX_DEPTH: give it that much headroom on top of
+    # whatever the caller's limit is, so RecursionError can never be hit.
+    old_limit = sys.getrecursionlimit()
+    sys.setrecursionlimit(old_limit + 2 * MAX_DEPTH + 200)
+    try:
+        doc = Parser(src).document()
+    finally:
+        sys.setrecursionlimit(old_limit)
+    return json.dumps(doc, ensure_ascii=False).encode("utf-8", "surrogatepass")
